@@ -79,11 +79,44 @@ var blockChild = map[string]bool{"div": true, "p": true, "ul": true, "ol": true,
 	"h4": true, "h5": true, "h6": true, "blockquote": true, "pre": true, "article": true, "section": true, "main": true,
 	"header": true, "footer": true, "nav": true, "aside": true}
 
+// phrasing: the subtree holds no block-level element, list item or code
+// element: text, inline elements (b, a, span, …), comments. What is inside
+// script/style/… is not looked at.
+func phrasing(n *html.Node) bool {
+	if n.Type == html.ElementNode {
+		if skipTags[n.Data] {
+			return true
+		}
+		if blockChild[n.Data] || n.Data == "li" || n.Data == "code" {
+			return false
+		}
+	}
+	for c := n.FirstChild; c != nil; c = c.NextSibling {
+		if !phrasing(c) {
+			return false
+		}
+	}
+	return true
+}
+
+// inWrapper: between the text node n and the paragraph para there is an element
+// other than a div that is not phrasing content, i.e. a wrapper (span, a,
+// section, …) around a block-level element: n is that wrapper's own text.
+func inWrapper(n *html.Node, para *html.Node) bool {
+	for p := n.Parent; p != nil && p != para; p = p.Parent {
+		if p.Type == html.ElementNode && p.Data != "div" && !phrasing(p) {
+			return true
+		}
+	}
+	return false
+}
+
 // contentKind names the innermost content element around a text node: the
 // element kinds the property lists. Text that belongs to a table but to none of
 // its cells (caption) belongs to no content element. A paragraph that has
 // block-level element children (only possible in quirks mode: <p>text<table>)
-// is reported as its own kind.
+// is reported as its own kind, and text of such a paragraph that sits in a
+// wrapper around a block-level element as another.
 func contentKind(n *html.Node, root *html.Node) (kind string, skip bool) {
 	decided := false
 	for p := n.Parent; p != nil; p = p.Parent {
@@ -101,6 +134,9 @@ func contentKind(n *html.Node, root *html.Node) (kind string, skip bool) {
 						if c.Type == html.ElementNode && blockChild[c.Data] {
 							kind = "para-with-block-child"
 						}
+					}
+					if kind == "para-with-block-child" && inWrapper(n, p) {
+						kind = "para-in-wrapper"
 					}
 				case "li":
 					kind, decided = "item", true
@@ -299,6 +335,9 @@ func oracles(c *hx.Ctx, k *kase, data []byte, run *docRun, g *genInfo) {
 			if t.skip || t.kind == "" || strings.HasPrefix(t.tok, "lk") {
 				continue
 			}
+			if nv.name == "text" && strings.HasPrefix(t.kind, "para-") {
+				c.Count("token-in-" + t.kind)
+			}
 			chk(c, "C19/content-missing-"+t.kind, count[t.tok] >= 1, k, func() string {
 				return fmt.Sprintf("token %s sits in a %s element of the parsed document but the %s view of mode none does not contain it", t.tok, t.kind, nv.name)
 			})
@@ -437,7 +476,13 @@ func oracles(c *hx.Ctx, k *kase, data []byte, run *docRun, g *genInfo) {
 			}
 			if n.kind != "" && !skipped {
 				present := strings.Contains(none.text, n.tok)
-				chk(c, "C19/content-missing-"+n.kind, present, k, func() string {
+				kind := n.kind
+				if ti, ok := info[n.tok]; ok && ti.kind == "para-in-wrapper" {
+					// the parser moved the paragraph's text into a wrapper around a table
+					// (nested <a>: adoption agency): the more specific failure class
+					kind = ti.kind
+				}
+				chk(c, "C19/content-missing-"+kind, present, k, func() string {
 					return fmt.Sprintf("token %s of a <%s> (%s) is not in the text of mode none", n.tok, n.tag, n.kind)
 				})
 				if present {
